@@ -281,6 +281,49 @@ def _judge_list_sender(rng, tag):
     return None
 
 
+def _judge_deep_fit_forcing(rng, tag):
+    """offline fit of a deep model with two readouts fitted in different passes and feedback crossing the passes:
+    inp-free chain R1 >> ro1 >> R2 >> ro2 with R1 <<= ro2 and R2 <<= ro1.  During Model.fit every receiver sees the TARGET of its
+    sender shifted by one step (zero first), in every pass in which it is run."""
+    import reservoirpy as rpy
+    rpy.verbosity(0)
+    from reservoirpy.node import Node
+    from reservoirpy.nodes import Ridge
+    seen = {"R1": [], "R2": []}
+
+    def init(node, x=None, **kw):
+        node.set_input_dim(x.shape[1]); node.set_output_dim(x.shape[1])
+
+    def mk(key):
+        def fwd(n, x):
+            seen[key].append(np.asarray(n.feedback()).ravel().copy())
+            return x
+        return fwd
+    T = 5
+    X = scen.fl(scengen.rows(rng, T, 1)); Y1 = scen.fl(scengen.rows(rng, T, 1, lim=8)); Y2 = scen.fl(scengen.rows(rng, T, 1, lim=8))
+    R1 = Node(forward=mk("R1"), initializer=init, name="df%s_R1" % tag); R2 = Node(forward=mk("R2"), initializer=init, name="df%s_R2" % tag)
+    ro1 = Ridge(ridge=1.0, name="df%s_ro1" % tag); ro2 = Ridge(ridge=1.0, name="df%s_ro2" % tag)
+    m = R1 >> ro1 >> R2 >> ro2
+    R1 <<= ro2
+    R2 <<= ro1
+    sc = {"tag": tag, "kind": "deep-fit"}
+    try:
+        m.fit(X, {ro1.name: Y1, ro2.name: Y2})
+    except Exception as ex:  # noqa: BLE001
+        return _viol("fit:exception", "offline fit of a deep model with crossing feedback raises %r" % (ex,), sc)
+    for key, Ys in (("R1", Y2), ("R2", Y1)):
+        got = seen[key]
+        if len(got) == 0 or len(got) % T != 0:
+            return _viol("fit:targets-not-forced", "receiver %s was run %d times during the fit (expected a multiple of %d)" % (key, len(got), T), sc)
+        for k in range(len(got) // T):
+            for t in range(T):
+                exp = np.zeros(1) if t == 0 else Ys[t - 1]
+                if not np.allclose(got[k * T + t], exp, atol=1e-12):
+                    return _viol("fit:targets-not-forced", "deep model fit: pass %d step %d receiver %s saw %s, expected its sender's target of the previous step %s"
+                                 % (k, t, key, got[k * T + t].tolist(), np.asarray(exp).tolist()), sc, np.asarray(exp).tolist(), got[k * T + t].tolist())
+    return None
+
+
 def _judge_esn_forced(rng, tag):
     """ESN node with feedback: run(X, forced_feedbacks={readout: F}) must make the reservoir see F[t-1] (zero at t = 0), i.e. equal
     the explicit recurrence computed with the ESN's own matrices and the forced values"""
@@ -326,7 +369,8 @@ def oracle(ctx, scale=1):
             out.append(v)
     for i in range(ctx.n(3, 20)):
         out += _judge_training(rng, "%d_%d" % (ctx.seed, i))
-        for v in (_judge_list_sender(rng, "%d_%d" % (ctx.seed, i)), _judge_esn_forced(rng, "%d_%d" % (ctx.seed, i))):
+        for v in (_judge_list_sender(rng, "%d_%d" % (ctx.seed, i)), _judge_esn_forced(rng, "%d_%d" % (ctx.seed, i)),
+                  _judge_deep_fit_forcing(rng, "%d_%d" % (ctx.seed, i))):
             if v:
                 out.append(v)
     return {"evaluations": n + ctx.n(3, 20), "violations": out,
@@ -335,6 +379,9 @@ def oracle(ctx, scale=1):
 
 def replay(payload):
     sc = payload["scenario"]
+    if sc.get("kind") == "deep-fit":
+        vs = [v for v in (_judge_deep_fit_forcing(core.random.Random(i), "rd%d" % i) for i in range(4)) if v]
+        return {"violates": bool(vs), "detail": vs[:1]}
     if sc.get("kind") == "esn-forced":
         vs = [v for v in (_judge_esn_forced(core.random.Random(i), "rq%d" % i) for i in range(4)) if v]
         return {"violates": bool(vs), "detail": vs[:1]}
